@@ -989,6 +989,18 @@ fn c05_reopen_step_unsync_pess() {
 fn c05_reopen_step_sync_opt() {
   step_reopen::<sync::Arena, 2, 3, 128>(cfg!(Optimistic, 1));
 }
+// @h props=C05 tier=thorough timeout=2400 mem=20 bounds=CAP=128,MAXN=3,n<=256
+#[kani::proof]
+#[kani::unwind(6)]
+fn c05_reopen_step_unsync_opt_n3() {
+  step_reopen::<unsync::Arena, 3, 4, 128>(cfg!(Optimistic, 1));
+}
+// @h props=C05 tier=thorough timeout=2400 mem=20 bounds=CAP=128,MAXN=2,reserved=5,n<=256
+#[kani::proof]
+#[kani::unwind(5)]
+fn c05_reopen_step_unsync_pess_res5() {
+  step_reopen::<unsync::Arena, 2, 3, 128>(cfg!(Pessimistic, 1, res 5));
+}
 // @h props=C05 tier=thorough timeout=900 bounds=CAP=128,list=None,n<=256 optcover=reopen_with_a_free_list|allocation_after_the_reopen_served
 #[kani::proof]
 #[kani::unwind(5)]
